@@ -176,6 +176,30 @@ impl Monitor for C08 {
     }
     fn on_landed(&mut self, ev: &Landed, cov: &mut Coverage) -> Vec<Violation> {
         let mut out = Vec::new();
+        // "the result is the largest liquidity whose cost fits both maxima": a by-token-amounts deposit that is refused as
+        // "liquidity zero" (or dies in a panic) although one unit of liquidity would fit the caller's maxima at the
+        // current price is not that
+        if !ev.out.ok && ev.tx.ixs.len() == 1 && ev.fail_cpi.is_none() {
+            if let Some(c) = wpix::decode(&ev.tx.ixs[0]) {
+                let code = ev.out.ix_outcomes.last().map(|o| o.code).unwrap_or(0);
+                if c.name() == "increase_liquidity_by_token_amounts_v2" && (code == 6012 || code == crate::rt::ERR_PANIC) {
+                    if let (Some(pool), Some(pos)) = (ev.pre.data(&c.a("whirlpool")).and_then(decode::pool), ev.pre.data(&c.a("position")).and_then(decode::position)) {
+                        let mut r = c.args();
+                        let _ = r.u8();
+                        let (max_a, max_b, min_p, max_p) = (r.u64(), r.u64(), r.u128(), r.u128());
+                        if plain(ev.pre, &pool) && pos.whirlpool == c.a("whirlpool") && pos.lower < pos.upper && pool.sqrt_price >= min_p && pool.sqrt_price <= max_p {
+                            let (a1, b1) = model::liquidity_amounts(1, pool.tick_current_index, pool.sqrt_price, pos.lower, pos.upper, true);
+                            let reg = region(&pool, pos.lower, pos.upper);
+                            cov.eval(format!("by_token_amounts_refused|{}|code={:#x}|one_unit_fits={}", reg, code.min(0xffff), a1 <= BigUint::from(max_a) && b1 <= BigUint::from(max_b)));
+                            if a1 <= BigUint::from(max_a) && b1 <= BigUint::from(max_b) {
+                                out.push(viol("refused_although_liquidity_fits", ev.idx, format!("increase_liquidity_by_token_amounts_v2 with maxima {} / {} on {}..{} at tick {} price {} ({}) {} although one unit of liquidity costs {} / {} and fits", max_a, max_b, pos.lower, pos.upper, pool.tick_current_index, pool.sqrt_price, reg, if code == 6012 { "is refused as liquidity zero" } else { "dies in a panic" }, a1, b1)));
+                                return out;
+                            }
+                        }
+                    }
+                }
+            }
+        }
         for v in ev.ix_views() {
             let Some(c) = wpix::decode(v.ix) else { continue };
             let name = c.name();
